@@ -5,6 +5,7 @@ From SV Require Import Lib.Str Model.Types Model.Naming Model.Api Model.Back Mod
 
 (* the file of a module stub lies in the directory that spells its module id; its base name is the module name
    without leading underscores *)
+From SV Require Import Model.Naming Proofs.PlaceholderProofs.
 Theorem C10_module_stub_path : forall dir name text,
   entry_path (dir, name, text, false) = path_join dir (lstrip_chars US name ++ K".sdsstub").
 Proof. exact entry_dir_module. Qed.
@@ -22,7 +23,34 @@ Proof. exact basename_no_leading_underscore. Qed.
 Theorem C10_rewrite_same_text : forall p c fs, fs_lookup p fs = Some c -> fs_write p c fs = fs.
 Proof. exact rewrite_same_text. Qed.
 
+(* placeholder stubs of classes of other libraries: for EVERY arrival order of the foreign classes (the classes of one module need
+   not be adjacent) and every initial content of the output directory, the placeholder file of a module is its header followed
+   by the text of each class of that module, in arrival order, each exactly once - never truncated by a later class, never
+   appended to a file left by an earlier run.  well_formed: module path and file name each determine the module (dotted Python
+   names); go_outside is the loop of create_stub_files (C10_create_stub_files_is_the_loop) *)
+Theorem C10_placeholder_files_complete : forall nc cs fs0 fs created,
+  well_formed cs -> go_outside nc cs (fs0, []) = Ok (fs, created) ->
+  forall c, In c cs -> fs_lookup (file_of c) fs = Some (header_of nc c ++ List.concat (map (text_of nc) (filter (same_mod c) cs))).
+Proof. exact placeholder_files_complete. Qed.
+Theorem C10_create_stub_files_is_the_loop : forall nc data outside fs0,
+  create_stub_files nc data outside fs0 =
+  match go_outside nc (sort_str outside)
+          (fold_left (fun fs e => fs_write (entry_path e) (let '(_, _, t, _) := e in t) fs) data fs0, []) with
+  | Ok (fs, _) => Ok fs
+  | Err e => Err e
+  end.
+Proof. exact create_stub_files_go. Qed.
+(* the hypotheses are satisfiable and the conclusion has content: ctypes.CDLL < ctypes._endian.BigEndianStructure < ctypes.c_int *)
+Theorem C10_placeholder_example : well_formed ctypes_example /\
+  match go_outside false ctypes_example ([], []) with
+  | Ok (fs, _) => fs_lookup (K"ctypes/ctypes.sdsstub") fs
+  | Err _ => None
+  end = Some (K"package ctypes" ++ NL ++ NL ++ K"class CDLL" ++ NL ++ NL ++ K"class c_int" ++ NL).
+Proof. exact (conj ctypes_example_well_formed ctypes_example_file). Qed.
 Print Assumptions C10_module_stub_path.
 Print Assumptions C10_path_shape.
 Print Assumptions C10_basename_without_leading_underscore.
 Print Assumptions C10_rewrite_same_text.
+Print Assumptions C10_placeholder_files_complete.
+Print Assumptions C10_create_stub_files_is_the_loop.
+Print Assumptions C10_placeholder_example.
